@@ -16,7 +16,8 @@ import random
 from mido import MidiFile
 
 from .. import genfile
-from ..ref import smf
+from ..ref import meta as rmeta
+from ..ref import midi1, smf
 
 ID = 'C08'
 ANCHORS = ['mido.midifiles.midifiles', 'mido.midifiles.meta']
@@ -312,6 +313,8 @@ def run(ctx):
             charset_write_case(ctx, cs, f'{ctx.seed}:{cs}')
             ctx.nontrivial(('charset-write', cs))
             n += 1
+    from .. import coldstart
+    n += coldstart.phase(ctx, overlap_jobs(), 'written bytes conformant', offset=3)
     nr = 40 if ctx.tier == 'quick' else 2500
     for j in range(nr):
         seed = f'{ctx.seed}:{ctx.shard}:r{j}'
@@ -327,7 +330,51 @@ def run(ctx):
     ctx.count('cases', n)
 
 
+def overlap_jobs():
+    """Two threads save and load different files at the same time (vmon.coldstart, warm mode: one
+    import, all schedules with at most one pre-emption; plus one cold job for the first save/load)."""
+    from ..coldstart import msg_want
+    eot = ['meta', 0, 0x2F, []]
+
+    def f(fmt, div, tracks):
+        b, _ = smf.encode_file(fmt, div, [[tuple(e) for e in t] for t in tracks])
+        return b
+    ta = [[['ch', 0, 0x90, [60, 100]], ['sysex', 5, [1, 2, 3]], ['meta', 0, 0x51, [7, 161, 32]], ['ch', 96, 0x80, [60, 0]], eot],
+          [['meta', 0, 0x03, [65, 66]], ['ch', 1, 0xC5, [9]], eot]]
+    tb = [[['ch', 3, 0xB1, [7, 127]], ['ch', 0, 0xE2, [0, 64]], ['meta', 200, 0x01, [120, 121, 122, 233]], eot],
+          [['sysex', 0, []], ['sys', 2, 0xF2, [1, 2]], ['ch', 128, 0x9F, [1, 2]], eot], [eot]]
+
+    def want_load(fmt, div, tracks):
+        out = []
+        for t in tracks:
+            ms = []
+            for e in t:
+                if e[0] in ('ch', 'sys'):
+                    typ, a = midi1.decode([e[2]] + list(e[3]))
+                    ms.append(msg_want(typ, a, time=e[1]))
+                elif e[0] == 'sysex':
+                    ms.append(msg_want('sysex', {'data': list(e[2])}, time=e[1]))
+                else:
+                    typ, a = rmeta.decode_payload(e[2], e[3], 'latin1')
+                    ms.append(msg_want(typ, a, 'MetaMessage', time=e[1]))
+            out.append(ms)
+        return [fmt, div, out]
+    sa = {'fn': 'save', 'fmt': 1, 'division': 96, 'tracks': ta, 'want': f(1, 96, ta).hex()}
+    sb = {'fn': 'save', 'fmt': 2, 'division': 480, 'tracks': tb, 'want': f(2, 480, tb).hex()}
+    la = {'fn': 'load', 'data': f(1, 96, ta).hex(), 'want': want_load(1, 96, ta)}
+    lb = {'fn': 'load', 'data': f(2, 480, tb).hex(), 'want': want_load(2, 480, tb)}
+    mods = ['mido.midifiles.midifiles', 'mido.midifiles.meta', 'mido.midifiles.tracks', 'mido.messages.encode',
+            'mido.messages.decode', 'mido.messages.messages']
+    return [{'modules': mods, 'jobs': [[sa], [sb, lb]], 'k': 1, 'fresh': False},
+            {'modules': mods, 'jobs': [[la], [lb, sb]], 'k': 1, 'fresh': False},
+            {'modules': mods, 'jobs': [[sa, la], [sb, lb]], 'k': 1, 'fresh': True, 'limit': 60}]
+
+
 def replay(ctx, case):
+    if case['kind'] == 'cold':
+        from .. import coldstart
+        coldstart.replay(ctx, case, 'written bytes conformant')
+        return
     if case['kind'] == 'big-track':
         big_track_file_modes(ctx, 'replay')
     elif case['kind'] == 'charset-write':
